@@ -297,6 +297,7 @@ pub(crate) fn generate_pipeline(
                         &mut vertex_outputs,
                         &mut pixel_input_members,
                         context.module,
+                        &context.name_map,
                     );
                 }
 
@@ -341,6 +342,7 @@ pub(crate) fn generate_pipeline(
                 &mut vertex_outputs,
                 &mut pixel_input_members,
                 context.module,
+                &context.name_map,
             );
 
             record_interpolator_location(
@@ -351,6 +353,7 @@ pub(crate) fn generate_pipeline(
                 &mut vertex_outputs,
                 &mut pixel_input_members,
                 context.module,
+                &context.name_map,
             );
         }
 
@@ -776,6 +779,7 @@ fn record_interpolator_location(
     vertex_outputs: &mut HashMap<ir::Semantic, Vec<String>>,
     pixel_input_members: &mut Vec<(ir::TypeId, String)>,
     module: &ir::Module,
+    name_map: &NameMap,
 ) {
     if let Some(semantic) = &semantic {
         vertex_outputs.insert(semantic.clone(), Vec::from([String::from(param_name)]));
@@ -795,11 +799,13 @@ fn record_interpolator_location(
         if let ir::TypeLayer::Struct(sid) = param_tyl {
             let sd = &module.struct_registry[sid.0 as usize];
 
-            for member in &sd.members {
+            for (member_index, member) in sd.members.iter().enumerate() {
                 if let Some(semantic) = &member.semantic {
+                    let member_name =
+                        name_map.get_struct_member_name(module, sid, member_index as u32);
                     vertex_outputs.insert(
                         semantic.clone(),
-                        Vec::from([String::from(param_name), member.name.clone()]),
+                        Vec::from([String::from(param_name), member_name.to_string()]),
                     );
                 }
             }
